@@ -460,7 +460,7 @@ Proof.
     injection H as <- _. exact (Inv_set_field _ _ _ _ (Inv_eval_idx _ _ _ _ HI E0) E1).
   - (* GetlineField *)
     destruct (eval_idx rx all_matches s i) as [[s0 k]| | |] eqn:E0; cbn [rbind] in H; try discriminate.
-    destruct (setf s0 0 t) as [s1| | |] eqn:E1; cbn [rbind] in H; try discriminate.
+    destruct (setf s0 k t) as [s1| | |] eqn:E1; cbn [rbind] in H; try discriminate.
     injection H as <- _. exact (Inv_set_field _ _ _ _ (Inv_eval_idx _ _ _ _ HI E0) E1).
   - (* ModField *)
     destruct (eval_idx rx all_matches s i) as [[s0 k]| | |] eqn:E0; cbn [rbind] in H; try discriminate.
